@@ -201,8 +201,9 @@ int main(int argc, char **argv)
 		for (uint64_t idx = from; idx < from + count; idx++) {
 			int K = sc->variants_per_base > 0 ? sc->variants_per_base : 1;
 			uint64_t rs = run_seed_of(seed, sc->name, idx / (uint64_t)K);
-			sc->gen(&p, rs, idx % (uint64_t)K, tier);
+			/* BEGIN comes first: generating a plan may execute the fault-free twin, and a crash there belongs to this index */
 			fprintf(g_out, "BEGIN idx=%" PRIu64 " seed=%" PRIu64 "\n", idx, rs);
+			sc->gen(&p, rs, idx % (uint64_t)K, tier);
 			char ph[64]; snprintf(ph, sizeof(ph), "%s idx=%" PRIu64, sc->name, idx);
 			sim_set_phase(ph);
 			exec_plan(sc, &p, &r);
